@@ -380,8 +380,13 @@ class MultiIndexBackend(DataFrameSchemaBackend):
 
         error_handler = ErrorHandler(lazy=True)
 
-        # construct MultiIndex with coerced data types
-        coerced_multi_index = {}
+        # construct MultiIndex with coerced data types; a level that no index
+        # component speaks about is kept as it is (the level checks report
+        # what is missing)
+        coerced_multi_index = {
+            level: check_obj.get_level_values(level)
+            for level in range(check_obj.nlevels)
+        }
         for i, index in enumerate(schema.indexes):
             if all(x is None for x in schema.names):
                 index_levels = [i]
